@@ -1,8 +1,8 @@
 SPECIFICATION Spec
 CONSTANT Depth = 3
 CONSTANT Shift = "0"
-CONSTANT Win0 = 2
-CONSTANT Mms = 150
-CONSTANT Side = "client"
+CONSTANT Win0 = 1
+CONSTANT Mms = 0
+CONSTANT Side = "listener"
 INVARIANT Emit
 CHECK_DEADLOCK FALSE
